@@ -39,8 +39,10 @@ func addR81a(w *World, r *Report, rule string) {
 		exitRes  []int // indices of the named results passed to ExitCall, in order
 	}
 	for _, sp := range []spec{
-		{"(*EVM).Call", []string{"caller.Address()", "&addr", "input", "value", "gas"}, []int{1, 0, 2}},
-		{"(*EVM).create", []string{"caller.Address()", "nil", "codeAndHash.code", "value", "gas"}, []int{2, 0, 3}},
+		// $k = the k-th parameter of the function (0 = ctx): Call(ctx, caller, addr, input, gas, value),
+		// create(ctx, caller, codeAndHash, gas, value, address, typ)
+		{"(*EVM).Call", []string{"$1.Address()", "&$2", "$3", "$5", "$4"}, []int{1, 0, 2}},
+		{"(*EVM).create", []string{"$1.Address()", "nil", "$2.code", "$4", "$3"}, []int{2, 0, 3}},
 	} {
 		fd, p := w.FuncDecl(forkPath(pkVM), sp.rel)
 		key := "vm." + sp.rel
@@ -56,6 +58,7 @@ func addR81a(w *World, r *Report, rule string) {
 				params[info.Defs[n]] = true
 			}
 		}
+		shape := paramShape(info, fd)
 		var results []types.Object
 		if fd.Type.Results != nil {
 			for _, f := range fd.Type.Results.List {
@@ -118,7 +121,7 @@ func addR81a(w *World, r *Report, rule string) {
 					}
 					arg = call.Args[0]
 				}
-				got := c.expr(arg)
+				got := shape(arg)
 				if got != want {
 					bad = append(bad, fmt.Sprintf("argument %d is `%s`, expected this call's `%s`", i+1, got, want))
 					continue
@@ -461,4 +464,51 @@ func addR82(w *World, r *Report, rule string) {
 		r.violated(rule, "instance-count:borrow-sources", "-", fmt.Sprintf("expected at least 8 Memory.GetPtr/Stack.peek sites, found %d: the rule's anchors no longer resolve", nSrc))
 	}
 	r.need(rule, 8)
+}
+
+
+// paramShape prints an expression with the parameters of fd replaced by their position ($0, $1, …;
+// $r = receiver), so that rules about "this call's parameters" do not depend on parameter names.
+func paramShape(info *types.Info, fd *ast.FuncDecl) func(e ast.Expr) string {
+	pidx := map[types.Object]string{}
+	k := 0
+	for _, f := range fd.Type.Params.List {
+		for _, n := range f.Names {
+			pidx[info.Defs[n]] = fmt.Sprintf("$%d", k)
+			k++
+		}
+		if len(f.Names) == 0 {
+			k++
+		}
+	}
+	if fd.Recv != nil && len(fd.Recv.List) == 1 && len(fd.Recv.List[0].Names) == 1 {
+		pidx[info.Defs[fd.Recv.List[0].Names[0]]] = "$r"
+	}
+	var shape func(e ast.Expr) string
+	shape = func(e ast.Expr) string {
+		switch x := e.(type) {
+		case *ast.Ident:
+			if s, ok := pidx[info.Uses[x]]; ok {
+				return s
+			}
+			if x.Name == "nil" {
+				return "nil"
+			}
+			return "?" + x.Name
+		case *ast.SelectorExpr:
+			return shape(x.X) + "." + x.Sel.Name
+		case *ast.CallExpr:
+			if len(x.Args) == 0 {
+				return shape(x.Fun) + "()"
+			}
+		case *ast.UnaryExpr:
+			if x.Op == token.AND {
+				return "&" + shape(x.X)
+			}
+		case *ast.ParenExpr:
+			return shape(x.X)
+		}
+		return "?"
+	}
+	return shape
 }
